@@ -81,7 +81,8 @@ Inductive fin :=
 | FinClosed                 (* the receiver dropped the connection itself (fix_f04) *)
 | FinFuel.                  (* out of fuel: excluded by WireProofs.recv_all_fuel *)
 
-(* [fix_f04 = false] is the pinned code: the too-big error is none of
+(* [fix_f04 = false] is the code as it was at the pinned commit (the repair
+   has since landed in /repo: ErrTooBig; Corr.C03.code_fixed_F04 = true): the too-big error is none of
    ErrTimeout/ErrClosed/ErrEOF/ErrUnknown, so handleConn logs it and calls
    Receive again ("Temporary error, continue").  [fix_f04 = true]: an
    oversize announcement ends the connection. *)
